@@ -52,7 +52,10 @@ HOSTILE_A2ML = {
     "deep_nesting": 'block "IF_DATA" ' + 'struct { ' * 200 + 'int;' + ' };' * 200,
     "valid": 'block "IF_DATA" taggedunion if_data { "X" struct { uint; }; };',
 }
-IFDATA_PAYLOADS = ["", "X 1", "T", "T 1 2 3", "A 1 A 2", "1 2 3", '"s"', "/begin X /end X", "X", "A"]
+IFDATA_PAYLOADS = ["", "X 1", "T", "T 1 2 3", "A 1 A 2", "1 2 3", '"s"', "/begin X /end X", "X", "A",
+                   # an A2ML block inside IF_DATA (its raw text is a string token), comments in every position
+                   '/begin A2ML"/end A2ML', 'X /begin A2ML"/end A2ML', "X /begin A2ML x /end A2ML", "X /begin A2ML /end A2ML",
+                   "X /begin B 1 /end B /* c */ /begin B 2 /end B", "X 1 /* c */", "X // c\n", "/* c */", "X /begin /* c */ B /end B"]
 
 
 def hostile_cases():
